@@ -22,6 +22,9 @@ def run_groups(res, groups, want_dec=None, timeout=120, variant="hooks", recon=T
     flat = []
     for gi, (key, cs) in enumerate(groups):
         for c in cs:
+            # TPL look-ahead makes CQP output (rarely) schedule dependent -- a recorded C04 finding; cross-run
+            # comparisons therefore run without it unless the case asks for it explicitly
+            c.setdefault("sets", {}).setdefault("enable_tpl_la", 0)
             c["_g"] = gi
             c["_key"] = key
             flat.append(c)
@@ -33,7 +36,7 @@ def run_groups(res, groups, want_dec=None, timeout=120, variant="hooks", recon=T
         res.case(r["desc"])
         by_group.setdefault(c["_g"], []).append(r)
         if r["rc"] != 0 and require_complete:
-            kk = known_key_fn(r, "incomplete") if known_key_fn else None
+            kk = dict(known_key_fn(r, "incomplete"), enable_tpl_la=int(c["sets"].get("enable_tpl_la", 0))) if known_key_fn else None
             res.violation("run did not complete (rc=%s): %s" % (r["rc"], r["desc"]),
                           r["log"][-1500:] + "\n" + json.dumps([e for e in r["events"] if e["ev"] in ("Timeout", "Drained")]), key=kk)
             continue
@@ -47,7 +50,7 @@ def run_groups(res, groups, want_dec=None, timeout=120, variant="hooks", recon=T
         if not known_key_fn:
             return None
         hit = [r for r in rs if r["desc"] == rej["desc"]]
-        return known_key_fn(hit[0], "mismatch") if hit else None
+        return dict(known_key_fn(hit[0], "mismatch"), enable_tpl_la=int(hit[0]["case"]["sets"].get("enable_tpl_la", 0))) if hit else None
     b.validate(res, "Observe", what, key_fn=kf)
     corpus.cleanup(rs)
     return by_group
